@@ -7,6 +7,7 @@ import (
 	"bytes"
 	"fmt"
 	"math/big"
+	"runtime/debug"
 	"sort"
 	"strings"
 
@@ -60,6 +61,7 @@ type Obs struct {
 	Err      bool
 	ErrText  string
 	Panic    bool
+	Stack    string `json:"-"` // goroutine stack at the panic (for attribution only, never compared)
 	Notified bool
 	Best     []int // tip first
 	Known    []KnownEntry
@@ -123,6 +125,7 @@ func (s *Sim) Do(op Op) (o Obs) {
 			if r := recover(); r != nil {
 				o.Panic = true
 				o.ErrText = fmt.Sprint("panic: ", r)
+				o.Stack = string(debug.Stack())
 			}
 		}()
 		var err error
